@@ -338,6 +338,15 @@ namespace verif
                 else
                 {
                     name = c.from(TOKCH, c.range(1, 8));
+                    // A name is a name: in a Cookie header the attribute names of Set-Cookie and the "$" names
+                    // of RFC 2965 are ordinary cookie names.  One fresh name in six (by its own hash, no choice
+                    // consumed) is replaced by one that looks special.
+                    {
+                        static const char* special[] = { "$Version", "$Path", "$Domain", "$Port", "Path", "Domain", "Expires", "Max-Age", "Secure", "HttpOnly", "SameSite", "path", "expires", "$", "$x" };
+                        uint64_t h = fnv1a(name);
+                        if (h % 6 == 0)
+                            name = special[(h / 6) % (sizeof special / sizeof special[0])];
+                    }
                     pool.push_back(name);
                 }
                 std::string value;
